@@ -27,6 +27,7 @@ verif_mod!(h_reified, "h_reified.rs");
 verif_mod!(h_e2, "h_e2.rs");
 verif_mod!(h_branching, "h_branching.rs");
 verif_mod!(h_kernels, "h_kernels.rs");
+verif_mod!(h_cumulative, "h_cumulative.rs");
 
 #[cfg(not(kani))]
 verif_mod!(dispatch, "dispatch.rs");
